@@ -48,6 +48,19 @@ class CSETagMapper(IdentityMapper):
             return getattr(IdentityMapper, expr.mapper_method)(
                     self, expr)
 
+    def map_common_subexpression(self, expr):
+        # The child may just have been wrapped by map_call and friends.
+        # Avoid creating CSE(CSE(...)).
+        result = self.rec(expr.child)
+        if type(result) is CommonSubexpression:
+            result = result.child
+        if result is expr.child:
+            return expr
+
+        return type(expr)(
+                result, expr.prefix, expr.scope,
+                **expr.get_extra_properties())
+
     map_sum = map_call
     map_product = map_call
     map_quotient = map_call
